@@ -174,6 +174,7 @@ func Load(repo string, overlay map[string][]byte) (*Prog, error) {
 		}
 	}
 	sort.Slice(p.AllFuncs, func(i, j int) bool { return p.AllFuncs[i].String() < p.AllFuncs[j].String() })
+	computeRecordedNames()
 	computeTypeRenames(p)
 	computeRenames(p)
 	computeFieldRenames(p)
